@@ -12,9 +12,10 @@ import re
 from vcheck import coq_list
 
 KINDS = {
-    "arith": ("bool * bool * aexpr * aexpr * bool",
-              "fun c => match c with (p, i, b, a, m) => opt_eqb aexpr_eqb (simplify_arith p i b) (Some (a, m)) end",
-              "fun c => match c with (p, i, b, a, m) => wf_arith b end"),
+    "arith": ("bool * bool * aexpr * aexpr * bool * bool * bool",
+              "fun c => match c with (p, i, b, a, m, k, k4) => opt_eqb aexpr_eqb (simplify_arith p i b) (Some (a, m)) "
+              "&& Bool.eqb (kf_dollar_param_after_side_effect b) k && Bool.eqb (kf_dollar_exponent b) k4 end",
+              "fun c => match c with (p, i, b, a, m, k, k4) => wf_arith b end"),
     "test": ("texpr * texpr * bool",
              "fun c => match c with (b, a, m) => opt_eqb texpr_eqb (simplify_test b) (Some (a, m)) end",
              "fun c => match c with (b, a, m) => wf_test b end"),
@@ -33,7 +34,8 @@ def coq_bool(b):
 
 def case_term(r):
     if r["k"] == "arith":
-        return "(%s,%s,%s,%s,%s)" % (coq_bool(r["p"]), coq_bool(r["i"]), r["b"], r["a"], coq_bool(r["m"]))
+        return "(%s,%s,%s,%s,%s,%s,%s)" % (coq_bool(r["p"]), coq_bool(r["i"]), r["b"], r["a"], coq_bool(r["m"]),
+                                           coq_bool(r.get("kf3", False)), coq_bool(r.get("kf4", False)))
     return "(%s,%s,%s)" % (r["b"], r["a"], coq_bool(r["m"]))
 
 
@@ -45,7 +47,7 @@ def code_leg(ctx, rows):
     rows = [r for r in rows if r["a"] not in ("PANIC", "UNEXPORTABLE")]
     for sh in range(0, len(rows), 1500):
         shard = rows[sh:sh + 1500]
-        text = """From Verif Require Import Base.Str Syntax.Simplify.
+        text = """From Verif Require Import Base.Str Syntax.Simplify KF.C04KF.
 Open Scope N_scope.
 Fixpoint idx {A} (f : A -> bool) (i : nat) (l : list A) : list nat :=
   match l with [] => [] | x :: r => if f x then idx f (S i) r else i :: idx f (S i) r end.
@@ -79,7 +81,7 @@ Print W_%s.
             for i in [int(x) for x in re.findall(r"\d+", w.group(1))]:
                 r = part[i]
                 wfbad.append({"kind": kind, "src": r["src"], "before": r["b"][:400]})
-    ctx.leg("code:syntax.Simplify vs Syntax/Simplify.v (tree after + bool; vm_compute in kernel)", total + len(direct), mism)
+    ctx.leg("code:syntax.Simplify vs Syntax/Simplify.v (tree after + bool; KF class twin; vm_compute in kernel)", total + len(direct), mism)
     ctx.leg("code:parser output satisfies wf_arith/wf_test/wf_word (scope of the theorems)", sum(1 for r in rows if not r["syn"]), wfbad)
     return total
 
@@ -91,8 +93,8 @@ def run(ctx):
     binp = ctx.go_build("c04")
     if not binp:
         return
-    ncode = 900 if quick else 9000
-    nsearch = 120 if quick else 2000
+    ncode = 1200 if quick else 9000
+    nsearch = 160 if quick else 2000
     rc, rows, err = ctx.jsonl([binp, "code", "-seed", str(ctx.seed), "-n", str(ncode)])
     if rc != 0 or not rows:
         ctx.broken.append(("harness-run", "c04 code failed rc=%d %s" % (rc, err[-800:])))
